@@ -49,6 +49,22 @@ PROPERTIES = {
         "not_decided": ["RtpPacket.parse / RtcpPacket.parse dispatch", "parse_packet", "H264PayloadDescriptor.parse",
                         "memory/time proportionality", "transport stays up afterwards"],
     },
+    "C06": {
+        "claim": "Proof for the pieces of partial reliability that are single functions: RTCSctpTransport."
+                 "_update_advanced_peer_ack_point pops exactly the abandoned prefix of the sent queue, builds a FORWARD-TSN only "
+                 "if something was popped, with the TSN of the last popped chunk and, per ordered stream, the stream sequence "
+                 "number of the *last* popped ordered chunk of that stream (not the numerically largest: they wrap), covering "
+                 "every such stream; InboundStream.prune_chunks removes exactly the maximal prefix of chunks at or before the "
+                 "forwarded TSN (32-bit serial order) and nothing else; ForwardTsnChunk parsing decodes the stream list exactly "
+                 "and rejects bad lengths with ValueError. Reduced: _maybe_abandon (F-15), _receive_forward_tsn_chunk, expiry in "
+                 "_data_channel_flush, flight-size accounting and every schedule-level statement are not decided.",
+        "note": "Only the listed functions are decided; nothing is claimed about other channels being undisturbed across a "
+                "whole exchange.",
+        "design_ref": "DESIGN.md 4.6, 9",
+        "trusted_base": COMMON,
+        "not_decided": ["_maybe_abandon covers unsent fragments (F-15)", "_receive_forward_tsn_chunk", "_data_channel_flush expiry",
+                        "flight-size accounting in _receive_sack_chunk (F-14)", "delivery resumes after recovery (liveness)"],
+    },
     "C07": {
         "claim": "Proof of the fixed-layout RTCP building blocks: RtcpReceiverInfo and RtcpSenderInfo parse(bytes(x)) == x "
                  "for all in-range field values, 24-bit signed loss clamp/pack/unpack round trip and saturation, REMB "
@@ -239,7 +255,6 @@ NOT_APPLICABLE = {
     "C02": "liveness over fault histories is not expressible as a function contract; the planned necessary-condition contracts (flight-size accounting, F-14) were not built",
     "C03": _NOT_BUILT + " (negotiation algebra); 'the session actually connects' is outside contracts (DESIGN 4.3)",
     "C04": "OpenSSL handshake, key export and libsrtp are external C code; the repo-owned fingerprint comparison contract was not built (DESIGN 4.4)",
-    "C06": _NOT_BUILT + " (_maybe_abandon/_update_advanced_peer_ack_point/prune_chunks; F-15 stays unreported by any check)",
     "C09": "SDP parse/serialise is string/regex code; no contract within reach of the installed solvers decides the round trip (DESIGN 4.9)",
     "C19": "termination and absence of leftover tasks/threads across coroutine interleavings is not expressible as a function contract (DESIGN 4.19)",
 }
